@@ -457,6 +457,16 @@ var Catalogue = []Mutation{
 			return true
 		})
 	}},
+	{"ASL-SIGS-SWAPPED", "pabcd", func(m *MutCtx) bool {
+		// the two aggregate signatures exchanged: each wrong for its own attestation, their sum unchanged
+		return mutASL(m, func(s *refspec.AttesterSlashing) bool {
+			if s.A1.Signature == s.A2.Signature {
+				return false
+			}
+			s.A1.Signature, s.A2.Signature = s.A2.Signature, s.A1.Signature
+			return true
+		})
+	}},
 	// ---------------------------------------------------------------- proposer slashings
 	{"PSL-DIFF-SLOT", "pabcd", func(m *MutCtx) bool {
 		return mutPSL(m, func(s *refspec.ProposerSlashing, key uint64) bool {
@@ -487,6 +497,16 @@ var Catalogue = []Mutation{
 			} else {
 				s.H2.Signature[20] ^= 4
 			}
+			return true
+		})
+	}},
+	{"PSL-SIGS-SWAPPED", "pabcd", func(m *MutCtx) bool {
+		// both signatures wrong individually, their sum right (an aggregated check of the two would pass)
+		return mutPSL(m, func(s *refspec.ProposerSlashing, key uint64) bool {
+			if s.H1.Signature == s.H2.Signature {
+				return false
+			}
+			s.H1.Signature, s.H2.Signature = s.H2.Signature, s.H1.Signature
 			return true
 		})
 	}},
